@@ -45,7 +45,7 @@ func init() {
 }
 
 func c16Cases(tier string, seed int64) []string {
-	n := 16
+	n := 64
 	if tier == "thorough" {
 		n = 1600
 	}
@@ -257,11 +257,13 @@ func c16Run(c *fw.C, caseID string) {
 		var exp c16Expect
 		exp.unchanged = true
 		corruptAt, kind := -1, ""
+		overlap := uint64(0)
 		switch shape {
 		case "side-chain", "side-chain-corrupt":
 			from := fp + 1
-			if r.Intn(4) == 0 && fp > 3 {
-				from = fp + 1 - uint64(r.Intn(3)) // overlap with the common prefix
+			if r.Intn(2) == 0 && fp > 8 {
+				overlap = uint64(r.Intn(7)) // the delivery starts with momentums the node already holds
+				from = fp + 1 - overlap
 			}
 			batch = simnet.CloneBatch(src.Range(from, src.Height()))
 		case "extension", "extension-corrupt":
@@ -317,6 +319,15 @@ func c16Run(c *fw.C, caseID string) {
 		if strings.HasSuffix(shape, "-corrupt") {
 			kind = c16Kinds[r.Intn(len(c16Kinds))]
 			corruptAt = r.Intn(len(batch))
+			if shape == "side-chain-corrupt" && r.Intn(2) == 0 {
+				// aim at the interesting window: the failing element sits around the length of the node's own branch
+				// (counted after / before stripping the known prefix)
+				own := int(uint64(len(L)) - fp)
+				pos := int(overlap) + own - 2 + r.Intn(4)
+				if pos >= int(overlap) && pos < len(batch) {
+					corruptAt = pos
+				}
+			}
 			c16LastMutatedBlock = nil
 			if !c16Corrupt(batch, corruptAt, kind, r) {
 				corruptAt, kind = -1, ""
